@@ -3,6 +3,7 @@
 //! and writes (a) Coq case files on which the model is evaluated and compared, (b) result_<prop>.json.
 mod c13;
 mod coqw;
+mod docvocab;
 mod dumpfmt;
 mod enumgen;
 mod enumprops;
@@ -71,6 +72,11 @@ fn main() {
         "C16" => typstprops::run_c16(&o),
         _ => { eprintln!("unknown property {prop}"); std::process::exit(2); }
     };
+    let mut rep = rep;
+    if prop == "C10" || prop == "C03" {
+        // the vocabulary as documented (comments of the lexical format instances), searched on the real code
+        docvocab::extend(&mut rep);
+    }
     rep.write(&o.outdir).expect("write report");
     println!("{}: {} evaluations, {} distinct, {} failures, {} shards", rep.prop, rep.evaluations, rep.distinct.len(), rep.failures.len(), rep.shards.len());
 }
